@@ -247,11 +247,16 @@ func (p *parser) expr() (Expr, error) {
 			q.Lo, q.Hi = lo, hi
 		} else {
 			// typed: forall x T :: body
+			star := ""
+			if p.isOp("*") {
+				p.next()
+				star = "*"
+			}
 			t := p.next()
 			if t.k != "id" {
 				return nil, fmt.Errorf("'in' or a type expected after quantifier variables")
 			}
-			q.Hi = &Ident{t.s}
+			q.Hi = &Ident{star + t.s}
 		}
 		if err := p.expectOp("::"); err != nil {
 			return nil, err
